@@ -272,6 +272,21 @@ def checkCan (W : World) (tbl : List (Site × List Cls)) (P : Prog) (specs : Lis
   let t := summTable W base P
   specs.all (fun fc => (lookupT t base fc.1).contains fc.2)
 
+/-- many "no class below one of `banned` leaves `f`" checks with one evaluation of the table -/
+def checkNever (W : World) (tbl : List (Site × List Cls)) (P : Prog) (specs : List (Site × List Cls)) : Bool :=
+  let base := fun k => expandAll W.tree (lookupAbs W tbl k)
+  let t := summTable W base P
+  specs.all (fun fb => (lookupT t base fb.1).all (fun c => !(fb.2.any (fun A => sub W.tree c A))))
+
+/-- `checkOnly`, `checkNever` and `checkCan` with ONE evaluation of the table (the instance modules evaluate this) -/
+def checkAll (W : World) (tbl : List (Site × List Cls)) (P : Prog) (only never : List (Site × List Cls))
+    (can : List (Site × Cls)) : Bool :=
+  let base := fun k => expandAll W.tree (lookupAbs W tbl k)
+  let t := summTable W base P
+  only.all (fun fa => (lookupT t base fa.1).all (fun c => fa.2.any (fun A => sub W.tree c A))) &&
+  never.all (fun fb => (lookupT t base fb.1).all (fun c => !(fb.2.any (fun A => sub W.tree c A)))) &&
+  can.all (fun fc => (lookupT t base fc.1).contains fc.2)
+
 /-- membership check for the witness theorems -/
 def canEscape (W : World) (tbl : List (Site × List Cls)) (P : Prog) (f : Site) (c : Cls) : Bool :=
   (summ W (fun k => expandAll W.tree (lookupAbs W tbl k)) P f).contains c
